@@ -370,6 +370,13 @@ def tol(abs_sum, n_terms=1, rel=1e-5):
 
 
 def close(a, b, scale=1.0, rel=2e-5):
+    if isinstance(a, (tuple, list)) or isinstance(b, (tuple, list)):
+        return (
+            isinstance(a, (tuple, list))
+            and isinstance(b, (tuple, list))
+            and len(a) == len(b)
+            and all(close(x, y, scale, rel) for x, y in zip(a, b))
+        )
     a = np.asarray(a, dtype=np.float64)
     b = np.asarray(b, dtype=np.float64)
     if a.shape != b.shape:
